@@ -4,21 +4,31 @@
    Poll and EPoll with the monitor of ConnOps (the same operators the
    generative model Conn.tla is checked against).  One initial state per
    trace; each step consumes one line; the verdict is total: the first failing
-   clause is kept in `bad` and consumption goes on.                          *)
+   clause is kept in `bad`, consumption goes on, and every further failure
+   that is not a repetition (same clause, world, connection and table) is
+   collected in `more` (so that one failure - a known one in particular - does
+   not hide another).                                                        *)
 EXTENDS ConnOps, Json, IOUtils, TLC
 
 Traces == JsonDeserialize(IOEnv.TRACE_FILE)
 
-VARIABLES tid, l, P, bad, badline
-vars == <<tid, l, P, bad, badline>>
+VARIABLES tid, l, P, bad, badline, more, rep
+vars == <<tid, l, P, bad, badline, more, rep>>
+
+MaxMore == 32
 
 Init == /\ tid \in 1..Len(Traces) /\ l = 1 /\ P = P0 /\ bad = "" /\ badline = 0
+        /\ more = <<>> /\ rep = {}
 
 Next == /\ l <= Len(Traces[tid])
         /\ LET ln == Traces[tid][l]
                f  == Fail(P, ln)
            IN /\ bad' = IF bad = "" THEN f ELSE bad
               /\ badline' = IF bad = "" /\ f # "" THEN l ELSE badline
+              /\ LET key == <<f, ln.p, ln.c, ln.t>>
+                 IN IF f # "" /\ key \notin rep /\ Len(more) < MaxMore
+                    THEN more' = Append(more, <<f, l>>) /\ rep' = rep \cup {key}
+                    ELSE UNCHANGED <<more, rep>>
               /\ P' = Apply(P, ln)
         /\ l' = l + 1
         /\ UNCHANGED tid
@@ -26,5 +36,5 @@ Next == /\ l <= Len(Traces[tid])
 Spec == Init /\ [][Next]_vars
 
 (* reported once per trace, when its last line has been consumed *)
-Report == (l = Len(Traces[tid]) + 1) => PrintT(<<"VERDICT", tid, bad, badline>>)
+Report == (l = Len(Traces[tid]) + 1) => PrintT(<<"VERDICT", tid, bad, badline, more>>)
 =============================================================================
